@@ -150,6 +150,12 @@ func RunC15(c *Ctx) {
 			switch {
 			case recordThemed:
 				doc, dk, forced = workload.W11Doc(c.Seed, recordBase+uint64(r.Intn(6))), "record-themed", true
+				if prevDoc != nil && r.Intn(3) == 0 {
+					if sib, ok := siblingSameLength(prevDoc); ok {
+						doc, dk = sib, "same-length sibling of the previous record document"
+						c.Rec.C("same_length_sibling_documents")
+					}
+				}
 			case numberThemed:
 				// number-themed history: numbers that need the slow decimal path, overflow failures and
 				// ordinary numbers in turn (seeded change C15r8-m1: a per-reader scratch decimal that is
@@ -182,6 +188,15 @@ func RunC15(c *Ctx) {
 				}
 			case prevDoc != nil && r.Intn(7) == 0:
 				doc, dk = prevDoc, "previous document again"
+				// ... or its same-length sibling: every key and string at the same offset with the same raw length
+				// and one byte of difference (seeded changes C16r10-m1, C03r10-m1: the reader remembers a SLICE OF
+				// THE CALLER'S INPUT as the raw form of the escaped name it unescaped last)
+				if index%2 == 1 {
+					if sib, ok := siblingSameLength(prevDoc); ok {
+						doc, dk = sib, "same-length sibling of the previous document"
+						c.Rec.C("same_length_sibling_documents")
+					}
+				}
 			}
 			prevDoc = doc
 			if index%3 != 0 && len(doc) <= len(inbuf) {
@@ -478,4 +493,87 @@ func escapeKeysOnce(d []byte) ([]byte, bool) {
 	}
 	out = append(out, d[last:n.End]...)
 	return out, changed
+}
+
+// siblingSameLength rewrites a well-formed document into one of exactly the same length and layout in which
+// every object key and every string value differs from the original in one place: the last hex digit of its last
+// \u escape, else the letter of its last two-character escape, else its last plain letter or digit. Presented at
+// the same address right after the original (a refilled read buffer), every name and string then has the same
+// offset and the same raw length as the one the reader saw there before, and a different meaning - the situation
+// in which a cache that remembers a slice of the caller's input instead of a copy answers with stale text.
+func siblingSameLength(d []byte) ([]byte, bool) {
+	n, ok := refmodel.ParseValue(d)
+	if !ok {
+		return nil, false
+	}
+	out := append([]byte(nil), d...)
+	changed := false
+	tweak := func(a, b int) {
+		// a,b: raw span between the quotes
+		lastU, lastE, lastP := -1, -1, -1
+		for i := a; i < b; i++ {
+			if out[i] == '\\' && i+1 < b {
+				if out[i+1] == 'u' && i+5 < b {
+					lastU = i
+					i += 5
+				} else {
+					if strings.IndexByte("ntbfr", out[i+1]) >= 0 {
+						lastE = i
+					}
+					i++
+				}
+				continue
+			}
+			if c := out[i]; c >= 'a' && c <= 'z' || c >= 'A' && c <= 'Z' || c >= '0' && c <= '9' {
+				lastP = i
+			}
+		}
+		switch {
+		case lastU >= 0:
+			h := &out[lastU+5]
+			switch {
+			case *h >= '0' && *h <= '9':
+				*h = '0' + (*h-'0')^1
+			case *h >= 'a' && *h <= 'f':
+				*h = 'a' + ((*h-'a')^1)%6
+			case *h >= 'A' && *h <= 'F':
+				*h = 'A' + ((*h-'A')^1)%6
+			default:
+				return
+			}
+			changed = true
+		case lastE >= 0:
+			out[lastE+1] = "tnfbn"[strings.IndexByte("ntbfr", out[lastE+1])]
+			changed = true
+		case lastP >= 0:
+			c := out[lastP]
+			switch {
+			case c == 'z' || c == 'Z' || c == '9':
+				out[lastP] = c - 1
+			default:
+				out[lastP] = c + 1
+			}
+			changed = true
+		}
+	}
+	var walk func(n *refmodel.Node)
+	walk = func(n *refmodel.Node) {
+		if n.Kind == refmodel.KString {
+			tweak(n.Start+1, n.End-1)
+		}
+		for i, e := range n.Elems {
+			if n.Kind == refmodel.KObject {
+				tweak(n.Keys[i].RawStart, n.Keys[i].RawEnd)
+			}
+			walk(e)
+		}
+	}
+	walk(n)
+	if !changed {
+		return nil, false
+	}
+	if _, ok := refmodel.ParseValue(out); !ok {
+		return nil, false
+	}
+	return out, true
 }
